@@ -363,19 +363,24 @@ def normalisation(fm, cfg, state, rec):
     # allowance: 0.02 (DESIGN) covers the binomial error of the empirical mass (<= 0.004 at 2e4 points) and the quadrature error; the LARS
     # normalising constant is itself a Monte-Carlo estimate (10 x 10^4 draws of an acceptance probability in (0, 1)): 0.05
     allow = 0.05 if cfg.get("distribution") == "lars" else 0.02
-    integral, bad = fd.grid_integral(fm.log_prob, lo, hi, n=GRID)
-    refined = False
+    # 600 x 600 cells that follow the marginal quantiles (60 quantile intervals x 10); refined to 1800 x 1800 when the comparison fails
+    integral, bad = fd.grid_integral_edges(fm.log_prob, fd.quantile_edges(xa, 0.05, 0.95, GRID // 10, 10))
+    refined, coarse = False, integral
     if not abs(integral - mass) <= allow:
-        # a midpoint rule on 600^2 cells can alias a very peaked density; a real normalisation error survives refinement
-        integral, bad = fd.grid_integral(fm.log_prob, lo, hi, n=3 * GRID)
+        integral, bad = fd.grid_integral_edges(fm.log_prob, fd.quantile_edges(xa, 0.05, 0.95, 3 * GRID // 10, 10))
         refined = True
-    rec.bump("cmp_normalisation_2d")
     rec.bump("normalisation_refined", int(refined))
+    if refined and not abs(integral - mass) <= allow and abs(integral - coarse) > 0.25 * allow:
+        # the two resolutions do not agree with each other: the quadrature has not converged (needle-like density), nothing can be said
+        rec.bump("normalisation_quadrature_not_converged")
+        rec.metrics.setdefault("integrals", []).append(dict(state=state, integral=round(integral, 5), coarse=round(coarse, 5), mass_in_box=round(mass, 5), converged=False))
+        return
+    rec.bump("cmp_normalisation_2d")
     rec.metrics.setdefault("integrals", []).append(dict(state=state, integral=round(integral, 5), mass_in_box=round(mass, 5), refined=refined, nonfinite_grid_points=bad))
     rec.norm_worst = max(rec.norm_worst, abs(integral - mass) / allow if integral == integral else np.inf)
     if not abs(integral - mass) <= allow:
-        rec.problems.append(("C08:flow:2d-density-not-normalised", f"state={state}: integral of exp(log_prob) over the central box is {integral:.5f} but {mass:.5f} of the "
-                             f"samples fall into it (allowed difference {allow}, grid {3 * GRID}^2)"))
+        rec.problems.append(("C08:flow:2d-density-not-normalised", f"state={state}: integral of exp(log_prob) over the central box is {integral:.5f} ({coarse:.5f} on the coarser grid) "
+                             f"but {mass:.5f} of the samples fall into it (allowed difference {allow}, {3 * GRID}^2 quantile-spaced cells)"))
 
 
 def adjudicate_float32(fm, cfg, state, rec, rng, before):
